@@ -18,11 +18,11 @@ from typing import Optional
 from ..engine.srcmodel import AnalysisError, ClassInfo, FuncInfo, Model, dotted, stmt_text, \
     walk_local
 from ..engine.cfg import CFG, Node, calls_may_raise
-from ..engine.dataflow import branch_facts
+from ..engine.dataflow import branch_facts, cond_facts
 from ..engine.taint import Taint, State
 from ..engine.callgraph import CallGraph
 from ..engine.report import RuleResult, Finding
-from .common import finding, try_context, handler_names
+from .common import finding, try_context, handler_names, enclosing_map
 
 CODE = re.compile(r'^(?:err:)?([A-Z]{4}[0-9]{4})$')
 FACTORIES = {'error', 'xpath_error', 'wrong_syntax', 'wrong_type', 'wrong_value',
@@ -260,8 +260,9 @@ def r03_3(ctx, counts) -> RuleResult:
         'R03.3', 'ASSERT-REACH',
         'All assert statements of the package are enumerated. An assert whose subject derives '
         'from evaluation results (forward taint from select/evaluate/get_argument/atomization/'
-        'get_operands/…, context.item, context.variables and the value parameters of the '
-        'comparison helpers) must be implied by the facts that dominate it in the same function: '
+        'get_operands/…, context.item, context.variables, the value parameters of the '
+        'comparison helpers, and — at parse time — the value of the parser\'s current/next '
+        'token, which is lexed from the source text) must be implied by the facts that dominate it in the same function: '
         '`isinstance(x, S)` on the true edge (or its negation leaving by raise/return/continue) '
         'discharges `assert isinstance(x, T)` iff every class of S is a subclass of a class of T '
         '(class lattice of the source model); an XOR of two isinstance tests establishes '
@@ -310,6 +311,8 @@ def r03_3(ctx, counts) -> RuleResult:
                 d = dotted(e)
                 if d.endswith('context.item') or d.endswith('.variables'):
                     return {'eval'}
+                if d.endswith('next_token.value') or d.endswith('parser.token.value'):
+                    return {'eval'}      # value of a token lexed from the source text
                 if isinstance(e.value, ast.Name) and 'eval' in st.get(e.value.id, ()):
                     return {'eval'}      # attribute of an evaluation result (node.value, …)
                 return set()
@@ -622,9 +625,886 @@ def r03_4(ctx, counts) -> RuleResult:
     return res
 
 
+# --------------------------------------------------------------------------------------------
+# R03.5 tokenizer totality
+# --------------------------------------------------------------------------------------------
+def _whitespace_chars() -> list[str]:
+    import sys
+    return [chr(c) for c in range(sys.maxunicode + 1) if chr(c).isspace()]
+
+
+def _skip_language_ok(model: Model, mod, test: ast.expr) -> tuple[bool, str]:
+    """does the skip test accept every string of the residue language \\s+ ?
+    returns (ok, description); raises AnalysisError for a form that is not modelled."""
+    def is_group(e: ast.expr) -> bool:
+        return isinstance(e, ast.Call) and isinstance(e.func, ast.Attribute) and \
+            e.func.attr == 'group' and not e.args
+
+    if isinstance(test, ast.Call) and isinstance(test.func, ast.Attribute) and \
+            test.func.attr == 'isspace' and is_group(test.func.value):
+        return True, 'whole match .isspace()'
+    if isinstance(test, ast.UnaryOp) and isinstance(test.op, ast.Not) and \
+            isinstance(test.operand, ast.Call) and isinstance(test.operand.func, ast.Attribute) \
+            and test.operand.func.attr == 'strip' and not test.operand.args \
+            and is_group(test.operand.func.value):
+        return True, 'not match.strip()'
+    if isinstance(test, ast.Compare) and len(test.ops) == 1 and isinstance(test.ops[0], ast.In):
+        left, right = test.left, test.comparators[0]
+        const = model.try_fold(mod, right)
+        if isinstance(left, ast.Subscript) and is_group(left.value) and \
+                isinstance(const, (str, tuple, list, set, frozenset)):
+            idx = model.try_fold(mod, left.slice)
+            if idx == 0:
+                missing = [c for c in _whitespace_chars() if c not in const]
+                if missing:
+                    return False, (f'first character in {const!r}: {len(missing)} whitespace '
+                                   f'characters matched by \\s are not accepted, e.g. '
+                                   f'{missing[0]!r}')
+                return True, 'first character in a constant covering all of \\s'
+        if is_group(left) and isinstance(const, (str, tuple, list, set, frozenset)):
+            return False, 'whole match in a constant: a finite set cannot cover \\s+'
+    raise AnalysisError(f'Parser.advance: whitespace skip test `{stmt_text(test)}` has a form '
+                        f'that R03.5 does not model')
+
+
+def r03_5(ctx, counts) -> RuleResult:
+    import re
+    import re._parser as sre_parse                      # type: ignore[import-not-found]
+    import re._constants as sre_c                       # type: ignore[import-not-found]
+    model: Model = ctx.model
+    res = RuleResult(
+        'R03.5', 'TOKENIZER-TOTALITY',
+        'The tokenizer template of Parser.create_tokenizer is an alternation of N capturing '
+        'groups plus a non-captured residue; (a) residue = \\s+ and one capturing group is the '
+        'single-character catch-all \\S, so every character of the source belongs to some match '
+        '(no character is silently dropped); (b) the patterns substituted into the template '
+        '(literals_pattern, name_pattern, every token pattern= of the registration DSL) contain '
+        'no capturing group and compile, so the group arity is N; (c) Parser.advance unpacks '
+        'exactly N groups and its skip test accepts every string of the residue language, so '
+        'the bare `raise RuntimeError` fall-through (allow table) is unreachable from input; '
+        '(d) every int()/float()/Decimal() conversion of the lexed text in advance() is inside '
+        'a try that catches the constructor\'s error (sibling agreement).')
+    parser = model.find_class('Parser')
+    ct = parser.methods.get('create_tokenizer')
+    adv = parser.methods.get('advance')
+    if ct is None or adv is None:
+        raise AnalysisError('Parser.create_tokenizer / Parser.advance vanished')
+    # the template: "<const>".format(...)
+    templates = [c for c in walk_local(ct.node) if isinstance(c, ast.Call)
+                 and isinstance(c.func, ast.Attribute) and c.func.attr == 'format'
+                 and isinstance(c.func.value, ast.Constant) and isinstance(c.func.value.value, str)
+                 and '|' in c.func.value.value and c.func.value.value.count('{}') >= 2]
+    if len(templates) != 1:
+        raise AnalysisError(f'tokenizer template not located ({len(templates)} candidates)')
+    tmpl = templates[0].func.value.value                # type: ignore[attr-defined]
+    probe = tmpl.replace('{}', 'PLACEHOLDER')
+    try:
+        tree = sre_parse.parse(probe)
+    except re.error as err:
+        res.fail(finding('R03.5', ct, templates[0], 'template', f'template does not parse: {err}'))
+        return res
+    alts = tree.data[0][1][1] if len(tree.data) == 1 and tree.data[0][0] is sre_c.BRANCH \
+        else [tree]
+    captured, residue, catch_all = 0, [], False
+    for alt in alts:
+        items = list(alt)
+        if len(items) == 1 and items[0][0] is sre_c.SUBPATTERN and items[0][1][0] is not None:
+            captured += 1
+            inner = list(items[0][1][3])
+            if len(inner) == 1 and inner[0][0] is sre_c.IN and \
+                    list(inner[0][1]) == [(sre_c.CATEGORY, sre_c.CATEGORY_NOT_SPACE)]:
+                catch_all = True
+        else:
+            residue.append(items)
+    res.instances.append(f'template {tmpl!r}: {captured} capturing alternatives, '
+                         f'{len(residue)} residue alternative(s), catch-all \\S={catch_all}')
+    ok_residue = len(residue) == 1 and len(residue[0]) == 1 and \
+        residue[0][0][0] is sre_c.MAX_REPEAT and residue[0][0][1][0] == 1 and \
+        residue[0][0][1][1] == sre_c.MAXREPEAT and \
+        [tuple(x) for x in residue[0][0][1][2]] == \
+        [(sre_c.IN, [(sre_c.CATEGORY, sre_c.CATEGORY_SPACE)])]
+    if ok_residue and catch_all:
+        res.ok()
+    else:
+        res.fail(finding('R03.5', ct, templates[0], 'template coverage',
+                         f'tokenizer template {tmpl!r}: residue is not exactly \\s+ or no '
+                         f'capturing catch-all (\\S) alternative exists: characters outside '
+                         f'every alternative are dropped silently by finditer, so malformed '
+                         f'input parses as something else'))
+    if len(templates[0].args) != tmpl.count('{}'):
+        res.fail(finding('R03.5', ct, templates[0], 'template arity',
+                         'number of format arguments differs from the placeholders'))
+    else:
+        res.ok()
+    # (b) substituted patterns have no capturing groups
+    pats: list[tuple[str, str, object]] = []
+    for c in model.all_classes():
+        if c.is_subclass_of(parser):
+            for attr in ('literals_pattern', 'name_pattern'):
+                if attr in c.attrs and c.attrs[attr] is not None:
+                    e = c.attrs[attr]
+                    if isinstance(e, ast.Call) and stmt_text(e.func) == 're.compile' and e.args:
+                        pats.append((f'{c.name}.{attr}', model.try_fold(c.module, e.args[0]), c))
+    init = parser.mro()[0].module
+    for f in model.all_functions():
+        if f.module is parser.module and f.name == '__new__' or f.name == '__init__':
+            if f.module is not parser.module:
+                continue
+            for n in walk_local(f.node):
+                if isinstance(n, ast.Assign) and isinstance(n.targets[0], ast.Attribute) and \
+                        n.targets[0].attr in ('literals_pattern', 'name_pattern') and \
+                        isinstance(n.value, ast.Call) and n.value.args:
+                    pats.append((f'ParserMeta default {n.targets[0].attr}',
+                                 model.try_fold(f.module, n.value.args[0]), f))
+    for rec in ctx.reg.all_records():
+        p = rec.get(model, 'pattern')
+        if isinstance(p, str):
+            pats.append((f'token {rec.symbol!r} pattern', p, rec))
+    seen = set()
+    by_pat: dict[object, int] = {}
+    for _, pat, _ in pats:
+        by_pat[pat if isinstance(pat, str) else id(pat)] = \
+            by_pat.get(pat if isinstance(pat, str) else id(pat), 0) + 1
+    for label, pat, _ in pats:
+        if isinstance(pat, str) and pat in {q for _, q in seen}:
+            continue
+        seen.add((label, pat))
+        if isinstance(pat, str) and by_pat[pat] > 1:
+            label += f' (+{by_pat[pat] - 1} more with the same pattern)'
+        if not isinstance(pat, str):
+            raise AnalysisError(f'{label}: pattern not foldable')
+        try:
+            groups = re.compile(pat).groups
+        except re.error as err:
+            res.fail(Finding('R03.5', parser.module.relpath, 'Parser.create_tokenizer',
+                             f'{label} invalid', f'{label} {pat!r} does not compile: {err}'))
+            continue
+        res.instances.append(f'{label}: {pat!r} groups={groups}')
+        if groups:
+            res.fail(Finding('R03.5', parser.module.relpath, 'Parser.create_tokenizer',
+                             f'{label} capturing group',
+                             f'{label} {pat!r} contains a capturing group: the group arity of '
+                             f'the tokenizer changes and advance() reads the wrong groups'))
+        else:
+            res.ok()
+    counts['tokenizer_patterns'] = len(seen)
+    if len(seen) < 4:
+        raise AnalysisError(f'only {len(seen)} substituted tokenizer patterns located')
+    # (c) advance: unpack arity and skip test
+    unpack = [n for n in walk_local(adv.node) if isinstance(n, ast.Assign)
+              and isinstance(n.targets[0], ast.Tuple) and isinstance(n.value, ast.Call)
+              and isinstance(n.value.func, ast.Attribute) and n.value.func.attr == 'groups']
+    if len(unpack) != 1:
+        raise AnalysisError('Parser.advance: groups() unpacking not located')
+    n_unpack = len(unpack[0].targets[0].elts)           # type: ignore[attr-defined]
+    res.instances.append(f'advance unpacks {n_unpack} groups; template has {captured}')
+    if n_unpack == captured:
+        res.ok()
+    else:
+        res.fail(finding('R03.5', adv, unpack[0], 'unpack arity',
+                         f'advance() unpacks {n_unpack} groups but the tokenizer template has '
+                         f'{captured} capturing alternatives'))
+    # (d) conversions of the lexed text
+    group_names = {x.id for x in unpack[0].targets[0].elts if isinstance(x, ast.Name)}  # type: ignore[attr-defined]
+    emap = enclosing_map(adv.node)
+    NEED = {'int': {'ValueError', 'Exception', 'BaseException'},
+            'float': {'ValueError', 'Exception', 'BaseException'},
+            'Decimal': {'DecimalException', 'InvalidOperation', 'ArithmeticError', 'Exception',
+                        'BaseException'}}
+    conv = 0
+    for n in walk_local(adv.node):
+        if isinstance(n, ast.Call) and dotted(n.func).split('.')[-1] in NEED and n.args and \
+                isinstance(n.args[0], ast.Name) and n.args[0].id in group_names:
+            conv += 1
+            ctor = dotted(n.func).split('.')[-1]
+            caught = False
+            for enc in emap[id(n)]:
+                if isinstance(enc, ast.Try) and any(any(y is n for y in ast.walk(b))
+                                                    for b in enc.body):
+                    for h in enc.handlers:
+                        if {x.split('.')[-1] for x in handler_names(model, adv.module, h)} \
+                                & NEED[ctor]:
+                            caught = True
+            res.instances.append(f'advance: {stmt_text(n)} guarded={caught}')
+            if caught:
+                res.ok()
+            else:
+                res.fail(finding('R03.5', adv, n, f'unguarded {stmt_text(n)}',
+                                 f'`{stmt_text(n)}` converts lexed source text outside a try '
+                                 f'that catches {sorted(NEED[ctor])[-1]}: its sibling conversions '
+                                 f'are guarded; a literal the constructor rejects (e.g. an '
+                                 f'integer longer than the interpreter\'s int/str digit limit) '
+                                 f'escapes as a bare ValueError'))
+    counts['literal_conversions'] = conv
+    if conv < 3:
+        raise AnalysisError(f'only {conv} literal conversions located in Parser.advance')
+    loops = [n for n in walk_local(adv.node) if isinstance(n, ast.For)
+             and stmt_text(n.iter) == 'self.tokens']
+    if len(loops) != 1:
+        raise AnalysisError('Parser.advance: token loop not located')
+    loop = loops[0]
+    skip: ast.expr | None = None
+    for st in loop.body:
+        if isinstance(st, ast.If) and not st.orelse and len(st.body) == 1:
+            if isinstance(st.body[0], ast.Break):
+                t = st.test
+                if isinstance(t, ast.UnaryOp) and isinstance(t.op, ast.Not):
+                    skip = t.operand
+                else:
+                    skip = ast.UnaryOp(op=ast.Not(), operand=t)
+                break
+            if isinstance(st.body[0], ast.Continue):
+                skip = st.test
+                break
+    if skip is None:
+        raise AnalysisError('Parser.advance: whitespace skip test not located in the token loop')
+    if isinstance(skip, ast.UnaryOp) and isinstance(skip.op, ast.Not) and \
+            isinstance(skip.operand, ast.UnaryOp) and isinstance(skip.operand.op, ast.Not):
+        skip = skip.operand.operand
+    if isinstance(skip, ast.UnaryOp) and isinstance(skip.op, ast.Not) and \
+            isinstance(skip.operand, ast.Compare) and len(skip.operand.ops) == 1 and \
+            isinstance(skip.operand.ops[0], ast.NotIn):
+        skip = ast.Compare(left=skip.operand.left, ops=[ast.In()],
+                           comparators=skip.operand.comparators)
+    ok, desc = _skip_language_ok(model, adv.module, skip)
+    res.instances.append(f'advance skip test `{stmt_text(skip)}`: {desc}')
+    if ok:
+        res.ok()
+    else:
+        res.fail(finding('R03.5', adv, loop, 'skip test',
+                         f'the whitespace skip test `{stmt_text(skip)}` does not accept every '
+                         f'match of the tokenizer residue \\s+ ({desc}): such a match reaches '
+                         f'the bare `raise RuntimeError` of advance()'))
+    return res
+
+
+# --------------------------------------------------------------------------------------------
+# R03.6 node-position sort domain
+# --------------------------------------------------------------------------------------------
+def r03_6(ctx, counts) -> RuleResult:
+    model: Model = ctx.model
+    res = RuleResult(
+        'R03.6', 'NODE-SORT-DOMAIN',
+        'Every collection sorted by document position (sorted(S, key=node_position) / '
+        'S.sort(key=node_position); node_position = attrgetter("position")) contains XPath '
+        'nodes only: S is covered by a dominating quantified guard `any(not isinstance(x, N) '
+        'for x in S)` that raises, or every element put into S (add/append/comprehension '
+        'element/loop variable) is dominated by isinstance(v, N) with N a subclass of '
+        'XPathNode, or comes from an axis iterator annotated as yielding nodes. Otherwise an '
+        'atomic item reaches attrgetter and AttributeError escapes.')
+    xnode = model.find_class('XPathNode')
+    helpers = model.module('elementpath.helpers')
+    np_def = helpers.assigns.get('node_position')
+    if np_def is None or 'attrgetter' not in stmt_text(np_def):
+        raise AnalysisError('helpers.node_position = attrgetter(...) vanished')
+
+    def is_node_class_expr(mod, e: ast.expr) -> bool:
+        cs = class_set(model, mod, e)
+        return bool(cs) and all(isinstance(c, ClassInfo) and c.is_subclass_of(xnode) for c in cs)
+
+    def ann_all_nodes(mod, ann: ast.expr | None, depth: int = 0) -> bool:
+        """annotation Iterator[T]/list[T]/set[T] with T ⊆ XPathNode"""
+        if ann is None or depth > 4:
+            return False
+        if isinstance(ann, ast.Subscript) and dotted(ann.value).split('.')[-1] in (
+                'Iterator', 'Iterable', 'list', 'set', 'List', 'Set', 'Generator'):
+            sl = ann.slice
+            first = sl.elts[0] if isinstance(sl, ast.Tuple) else sl
+            return type_all_nodes(mod, first, depth + 1)
+        return False
+
+    def type_all_nodes(mod, t: ast.expr, depth: int = 0) -> bool:
+        if depth > 5:
+            return False
+        if isinstance(t, ast.Constant) and isinstance(t.value, str):
+            cl = model.find_classes(t.value)
+            return bool(cl) and all(c.is_subclass_of(xnode) for c in cl)
+        if isinstance(t, ast.Subscript) and dotted(t.value).split('.')[-1] == 'Union':
+            sl = t.slice
+            elts = sl.elts if isinstance(sl, ast.Tuple) else [sl]
+            return all(type_all_nodes(mod, x, depth + 1) for x in elts)
+        if isinstance(t, ast.BinOp) and isinstance(t.op, ast.BitOr):
+            return type_all_nodes(mod, t.left, depth + 1) and \
+                type_all_nodes(mod, t.right, depth + 1)
+        if isinstance(t, (ast.Name, ast.Attribute)):
+            kind, val = model.resolve_expr(mod, t)
+            if kind == 'class':
+                return val.is_subclass_of(xnode)
+            if kind == 'const':
+                return type_all_nodes(val[0], val[1], depth + 1)
+        return False
+
+    sites = 0
+    for f in model.all_functions():
+        calls = []
+        for n in walk_local(f.node):
+            if isinstance(n, ast.Call):
+                kw = {k.arg: k.value for k in n.keywords}
+                if 'key' in kw and stmt_text(kw['key']).split('.')[-1] == 'node_position':
+                    if dotted(n.func) == 'sorted' and n.args:
+                        calls.append((n, n.args[0]))
+                    elif isinstance(n.func, ast.Attribute) and n.func.attr == 'sort':
+                        calls.append((n, n.func.value))
+        if not calls:
+            continue
+        cfg = CFG(f.node, calls_may_raise)
+        facts = branch_facts(cfg)
+        mod = f.module
+
+        def node_of(a: ast.AST) -> Node:
+            # innermost CFG node whose ast contains `a`
+            best = None
+            for nd in cfg.nodes:
+                if nd.ast is None:
+                    continue
+                root = nd.ast
+                if isinstance(root, (ast.If, ast.While)):
+                    root = root.test
+                elif isinstance(root, ast.For):
+                    root = root.iter
+                for x in ast.walk(root):
+                    if x is a:
+                        if best is None or (best.ast is not None and
+                                            len(list(ast.walk(root))) <
+                                            len(list(ast.walk(best.ast)))):
+                            best = nd
+                        break
+            if best is None:
+                raise AnalysisError(f'{f.key}: expression not located in the CFG')
+            return best
+
+        def guard_for(name: str, at: Node) -> bool:
+            want = re.compile(rf'^-any\(\(?not isinstance\((\w+), (.+?)\) for \1 in {re.escape(name)}\)?\)$')
+            for fact in facts[at.id]:
+                m = want.match(fact)
+                if m:
+                    try:
+                        ce = ast.parse(m.group(2), mode='eval').body
+                    except SyntaxError:
+                        continue
+                    if is_node_class_expr(mod, ce):
+                        return True
+            return False
+
+        def val_nodes(v: ast.expr, at: Node, comp_env: dict[str, bool], seen: set) -> bool:
+            if isinstance(v, ast.Name):
+                if v.id in comp_env:
+                    return comp_env[v.id]
+                for fact in facts[at.id]:
+                    m = re.match(rf'^\+isinstance\({re.escape(v.id)}, (.+)\)$', fact)
+                    if m:
+                        try:
+                            ce = ast.parse(m.group(1), mode='eval').body
+                        except SyntaxError:
+                            continue
+                        if is_node_class_expr(mod, ce):
+                            return True
+                # loop variable of an enclosing for over an all-nodes collection
+                for loop in walk_local(f.node):
+                    if isinstance(loop, ast.For) and isinstance(loop.target, ast.Name) \
+                            and loop.target.id == v.id \
+                            and any(x is v for b in loop.body for x in ast.walk(b)):
+                        return coll_nodes(loop.iter, node_of(loop.iter), comp_env, seen)
+            return False
+
+        def coll_nodes(e: ast.expr, at: Node, comp_env: dict[str, bool], seen: set) -> bool:
+            if isinstance(e, ast.Call):
+                fn = dotted(e.func)
+                if fn in ('set', 'list', 'sorted', 'tuple', 'reversed', 'frozenset', 'iter') \
+                        and e.args:
+                    return coll_nodes(e.args[0], at, comp_env, seen)
+                if fn in ('cast', 'typing.cast') and len(e.args) == 2:
+                    return coll_nodes(e.args[1], at, comp_env, seen)
+                if fn in ('set', 'list') and not e.args:
+                    return True
+                if isinstance(e.func, ast.Attribute):
+                    recv = dotted(e.func.value).split('.')[-1]
+                    if recv == 'context':
+                        for c in model.find_classes('XPathContext'):
+                            m = c.find_method(e.func.attr)
+                            if m is not None:
+                                return ann_all_nodes(m.module, m.node.returns)
+                return False
+            if isinstance(e, ast.BinOp):
+                if isinstance(e.op, ast.Sub):
+                    return coll_nodes(e.left, at, comp_env, seen)
+                if isinstance(e.op, ast.BitAnd):
+                    return coll_nodes(e.left, at, comp_env, seen) or \
+                        coll_nodes(e.right, at, comp_env, seen)
+                if isinstance(e.op, (ast.BitOr, ast.Add)):
+                    return coll_nodes(e.left, at, comp_env, seen) and \
+                        coll_nodes(e.right, at, comp_env, seen)
+                return False
+            if isinstance(e, (ast.SetComp, ast.ListComp, ast.GeneratorExp)):
+                env = dict(comp_env)
+                for g in e.generators:
+                    ok = coll_nodes(g.iter, at, env, seen)
+                    for cond in g.ifs:
+                        for fact in cond_facts(cond, True):
+                            m = re.match(r'^\+isinstance\((\w+), (.+)\)$', fact)
+                            if m and isinstance(g.target, ast.Name) and m.group(1) == g.target.id:
+                                try:
+                                    if is_node_class_expr(
+                                            mod, ast.parse(m.group(2), mode='eval').body):
+                                        ok = True
+                                except SyntaxError:
+                                    pass
+                    if isinstance(g.target, ast.Name):
+                        env[g.target.id] = ok
+                return val_nodes(e.elt, at, env, seen)
+            if isinstance(e, (ast.Set, ast.List, ast.Tuple)):
+                return all(val_nodes(x, at, comp_env, seen) for x in e.elts)
+            if isinstance(e, ast.Name):
+                if e.id in seen:
+                    return True          # recursion through S = set(S): decided by other defs
+                if guard_for(e.id, at):
+                    return True
+                seen = seen | {e.id}
+                # a guard anywhere in the function that every (re)definition either precedes
+                # or preserves
+                guards = [nd for nd in cfg.nodes if any(
+                    re.match(rf'^-any\(\(?not isinstance\(\w+, .+?\) for \w+ in {re.escape(e.id)}\)?\)$', fa)
+                    for fa in facts[nd.id])]
+                defs: list[tuple[ast.expr | None, ast.AST, str]] = []
+                for n in walk_local(f.node):
+                    if isinstance(n, (ast.Assign, ast.AnnAssign)):
+                        tgts = n.targets if isinstance(n, ast.Assign) else [n.target]
+                        for t in tgts:
+                            if isinstance(t, ast.Name) and t.id == e.id and n.value is not None:
+                                defs.append((n.value, n, 'assign'))
+                            elif isinstance(t, ast.Tuple) and isinstance(n.value, ast.Tuple) \
+                                    and len(t.elts) == len(n.value.elts):
+                                for tt, vv in zip(t.elts, n.value.elts):
+                                    if isinstance(tt, ast.Name) and tt.id == e.id:
+                                        defs.append((vv, n, 'assign'))
+                            elif isinstance(t, ast.Tuple) and any(
+                                    isinstance(tt, ast.Name) and tt.id == e.id for tt in t.elts):
+                                defs.append((None, n, 'assign'))
+                    elif isinstance(n, ast.Call) and isinstance(n.func, ast.Attribute) \
+                            and dotted(n.func.value) == e.id:
+                        if n.func.attr in ('add', 'append') and n.args:
+                            defs.append((n.args[0], n, 'elem'))
+                        elif n.func.attr == 'insert' and len(n.args) == 2:
+                            defs.append((n.args[1], n, 'elem'))
+                        elif n.func.attr in ('update', 'extend') and n.args:
+                            defs.append((n.args[0], n, 'coll'))
+                    elif isinstance(n, ast.AugAssign) and isinstance(n.target, ast.Name) \
+                            and n.target.id == e.id:
+                        defs.append((n.value, n, 'coll'))
+                if not defs:
+                    return False
+                for val, stmt, kind in defs:
+                    if val is None:
+                        return False
+                    dn = node_of(stmt)
+                    if kind == 'elem':
+                        if not val_nodes(val, dn, comp_env, seen):
+                            return False
+                    else:
+                        if coll_nodes(val, dn, comp_env, seen):
+                            continue
+                        # a definition that is followed by a guard on every path to the sort
+                        if guards and cfg.dominated_by(
+                                at, lambda q: q in guards) and all(
+                                cfg.dominated_by(g, lambda q, dn=dn: q is dn) for g in guards):
+                            continue
+                        return False
+                return True
+            return False
+
+        for call, coll in calls:
+            sites += 1
+            at = node_of(call)
+            ok = coll_nodes(coll, at, {}, set())
+            res.instances.append(f'{f.key}: sorted({stmt_text(coll)[:40]}, key=node_position) '
+                                 f'elements are nodes: {ok}')
+            if ok:
+                res.ok()
+            else:
+                res.fail(finding('R03.6', f, call, f'sort {stmt_text(coll)[:40]}',
+                                 f'`{stmt_text(call)[:70]}`: not every element of '
+                                 f'`{stmt_text(coll)[:40]}` is established to be an XPath node '
+                                 f'(no dominating all-nodes guard, and some add/definition is '
+                                 f'not under isinstance(…, XPathNode)): an atomic item makes '
+                                 f'attrgetter("position") raise AttributeError'))
+    counts['node_sort_sites'] = sites
+    if sites < 3:
+        raise AnalysisError(f'only {sites} node_position sort sites located')
+    return res
+
+
+# --------------------------------------------------------------------------------------------
+# R03.7 division family: zero / undefined division of decimals
+# --------------------------------------------------------------------------------------------
+# builtin/decimal exception lattice needed for handler coverage
+EXC_SUPERS = {
+    'ZeroDivisionError': {'ZeroDivisionError', 'ArithmeticError', 'Exception', 'BaseException'},
+    'InvalidOperation': {'InvalidOperation', 'DecimalException', 'ArithmeticError', 'Exception',
+                         'BaseException'},
+}
+
+
+def r03_7(ctx, counts) -> RuleResult:
+    model: Model = ctx.model
+    res = RuleResult(
+        'R03.7', 'DIVISION-HANDLERS',
+        'In the evaluate methods bound to the division-family operators (div, idiv, mod) every '
+        '/, // or % whose right operand is an evaluated operand either is dominated by a test '
+        'that the divisor is non-zero, or sits in a try whose handlers cover both '
+        'ZeroDivisionError (int/float, and decimal.DivisionByZero which derives from it) and '
+        'decimal.InvalidOperation (0 // 0, 0 / 0 and x % 0 on decimals raise it, not '
+        'DivisionByZero). The three operators are siblings and must agree.')
+    reg = ctx.reg
+    funcs: dict[FuncInfo, set[str]] = {}
+    for rec in reg.all_records():
+        if rec.symbol in ('div', 'idiv', 'mod'):
+            ref = rec.method('evaluate')
+            if ref is not None and ref.func is not None and ref.origin != 'class':
+                funcs.setdefault(ref.func, set()).add(rec.symbol)
+    if len(funcs) < 3:
+        raise AnalysisError(f'division-family evaluate methods located: {len(funcs)} < 3')
+    n_ops = 0
+    for f, syms in sorted(funcs.items(), key=lambda kv: kv[0].key):
+        cfg = CFG(f.node, calls_may_raise)
+        facts = branch_facts(cfg)
+        emap = enclosing_map(f.node)
+        operands: set[str] = set()
+        for n in walk_local(f.node):
+            if isinstance(n, ast.Assign) and isinstance(n.value, ast.Call) and \
+                    dotted(n.value.func).split('.')[-1] in EVAL_SOURCES:
+                for t in n.targets:
+                    for x in (t.elts if isinstance(t, ast.Tuple) else [t]):
+                        if isinstance(x, ast.Name):
+                            operands.add(x.id)
+        for n in walk_local(f.node):
+            if not (isinstance(n, ast.BinOp) and isinstance(n.op, (ast.Div, ast.FloorDiv, ast.Mod))):
+                continue
+            rnames = {x.id for x in ast.walk(n.right) if isinstance(x, ast.Name)}
+            if not (rnames & operands):
+                continue
+            n_ops += 1
+            holder = None
+            for nd in cfg.nodes:
+                if nd.ast is not None and nd.kind in ('stmt', 'test') and any(
+                        x is n for x in ast.walk(nd.ast.test if isinstance(nd.ast, (ast.If, ast.While))
+                                                 else nd.ast)):
+                    holder = nd
+                    break
+            if holder is None:
+                raise AnalysisError(f'{f.key}: division not located in the CFG')
+            div = sorted(rnames & operands)[0]
+            nonzero = f'-{div} == 0' in facts[holder.id] or f'+{div}' in facts[holder.id]
+            covered: set[str] = set()
+            for enc in emap[id(n)]:
+                if isinstance(enc, ast.Try) and any(
+                        any(y is n for y in ast.walk(b)) for b in enc.body):
+                    for h in enc.handlers:
+                        for nm in handler_names(model, f.module, h):
+                            base = nm.split('.')[-1]
+                            for need, sup in EXC_SUPERS.items():
+                                if base in sup:
+                                    covered.add(need)
+            ok = nonzero or covered >= set(EXC_SUPERS)
+            res.instances.append(f'{f.key} [{"/".join(sorted(syms))}]: `{stmt_text(n)[:40]}` '
+                                 f'divisor-nonzero={nonzero} handlers cover={sorted(covered)}')
+            if ok:
+                res.ok()
+            else:
+                missing = sorted(set(EXC_SUPERS) - covered)
+                res.fail(finding('R03.7', f, n, f'{stmt_text(n)[:30]} misses {"+".join(missing)}',
+                                 f'`{stmt_text(n)[:50]}` in the {"/".join(sorted(syms))} operator '
+                                 f'is not dominated by a divisor != 0 test and no enclosing '
+                                 f'handler catches {", ".join(missing)}: a zero decimal divisor '
+                                 f'escapes as a bare decimal/arithmetic error'))
+    counts['division_ops'] = n_ops
+    if n_ops < 3:
+        raise AnalysisError(f'only {n_ops} division operations located in div/idiv/mod')
+    return res
+
+
+# --------------------------------------------------------------------------------------------
+# R03.8 URL parsing of evaluated strings
+# --------------------------------------------------------------------------------------------
+URL_SINKS = {'urlsplit', 'urlparse', 'urljoin'}
+
+
+def r03_8(ctx, counts) -> RuleResult:
+    model: Model = ctx.model
+    res = RuleResult(
+        'R03.8', 'URL-PARSE-GUARD',
+        'urllib.parse.urlsplit/urlparse/urljoin raise ValueError on a malformed authority '
+        '("http://[x"). Every call of them on a non-constant argument, in any function of the '
+        'package, is (a) inside a try with a handler for ValueError, or (b) dominated by an '
+        'earlier guarded call of the same family on the same argument (already validated), or '
+        '(c) in a helper every resolved call site of which is inside such a try. Sites outside '
+        'parse/evaluation (parser construction) are named in the allow table.')
+    cg: CallGraph = ctx.memo('callgraph', lambda: CallGraph(model, ctx.reg))
+
+    def is_sink(mod, call: ast.Call) -> str | None:
+        d = dotted(call.func)
+        last = d.split('.')[-1]
+        if last not in URL_SINKS:
+            return None
+        if d.startswith('urllib.parse.'):
+            return last
+        kind, val = model.resolve(mod, d) if '.' not in d else ('', None)
+        if kind == 'external' and str(val).startswith('urllib.parse'):
+            return last
+        return None
+
+    def guarded(model_, f: FuncInfo, emap, n: ast.AST) -> bool:
+        for enc in emap[id(n)]:
+            if isinstance(enc, ast.Try) and any(any(y is n for y in ast.walk(b))
+                                                for b in enc.body):
+                for h in enc.handlers:
+                    if {x.split('.')[-1] for x in handler_names(model_, f.module, h)} & \
+                            {'ValueError', 'Exception', 'BaseException'}:
+                        return True
+        return False
+
+    sites = 0
+    for f in sorted(model.all_functions(), key=lambda q: q.key):
+        calls = [n for n in walk_local(f.node) if isinstance(n, ast.Call)
+                 and is_sink(f.module, n)]
+        if not calls:
+            continue
+        emap = enclosing_map(f.node)
+        cfg = None
+        for n in calls:
+            if all(isinstance(a, ast.Constant) for a in n.args):
+                continue
+            sites += 1
+            how = ''
+            if guarded(model, f, emap, n):
+                how = 'try/except ValueError'
+            if not how:
+                # (b) validated earlier: from every (non-falsy) definition of each argument
+                # name, no path reaches this call without passing a guarded sink call on the
+                # same name whose ValueError handlers all leave the function.
+                if cfg is None:
+                    cfg = CFG(f.node, calls_may_raise)
+                    cfacts = branch_facts(cfg)
+
+                def holder(x: ast.AST):
+                    for nd in cfg.nodes:
+                        if nd.ast is None or nd.kind not in ('stmt', 'test', 'for', 'with'):
+                            continue
+                        root = nd.ast.test if isinstance(nd.ast, (ast.If, ast.While)) else \
+                            nd.ast.iter if isinstance(nd.ast, ast.For) else nd.ast
+                        if any(y is x for y in ast.walk(root)):
+                            return nd
+                    return None
+
+                def terminal_handlers(call: ast.Call) -> bool:
+                    for enc in emap[id(call)]:
+                        if isinstance(enc, ast.Try) and any(any(y is call for y in ast.walk(b))
+                                                            for b in enc.body):
+                            for h in enc.handlers:
+                                if {x.split('.')[-1] for x in
+                                        handler_names(model, f.module, h)} & \
+                                        {'ValueError', 'Exception', 'BaseException'}:
+                                    if not isinstance(h.body[-1], (ast.Raise, ast.Return)):
+                                        return False
+                    return True
+
+                here = holder(n)
+                names = sorted({a.id for a in n.args if isinstance(a, ast.Name)})
+                only_names = all(isinstance(a, (ast.Name, ast.Constant)) for a in n.args)
+                ok_all = bool(names) and only_names and here is not None
+                for nm in names if ok_all else ():
+                    validators = [holder(o) for o in calls if o is not n
+                                  and guarded(model, f, emap, o) and terminal_handlers(o)
+                                  and any(isinstance(a, ast.Name) and a.id == nm for a in o.args)]
+                    validators = [v for v in validators if v is not None]
+                    if not validators:
+                        ok_all = False
+                        break
+                    truthy = f'+{nm}' in cfacts[here.id] or any(
+                        isinstance(b, ast.BoolOp) and isinstance(b.op, ast.And)
+                        and isinstance(b.values[0], ast.Name) and b.values[0].id == nm
+                        and any(y is n for v in b.values[1:] for y in ast.walk(v))
+                        for b in ast.walk(here.ast))
+                    defs = []
+                    for x in walk_local(f.node):
+                        if isinstance(x, (ast.Assign, ast.AnnAssign, ast.AugAssign)):
+                            tg = x.targets[0] if isinstance(x, ast.Assign) else x.target
+                            if any(isinstance(t, ast.Name) and t.id == nm
+                                   for t in ast.walk(tg)):
+                                defs.append(x)
+                        elif isinstance(x, (ast.For, ast.With)):
+                            pass
+                    starts = []
+                    if nm in f.params() or not defs:
+                        starts.append(cfg.entry)
+                    for d in defs:
+                        v = getattr(d, 'value', None)
+                        if truthy and isinstance(v, ast.Constant) and not v.value:
+                            continue
+                        hd = holder(d)
+                        if hd is None:
+                            ok_all = False
+                            break
+                        starts.append(hd)
+                    if not ok_all:
+                        break
+                    if cfg.path_avoiding(starts, lambda q: q is here,
+                                         lambda q: q in validators) is not None:
+                        ok_all = False
+                        break
+                if ok_all:
+                    how = 'every argument validated by a guarded call on all paths'
+            if not how:
+                csites = [cs for g in cg.callers.get(f, ()) for cs in cg.sites.get(g, ())
+                          if f in cs.targets]
+                if csites and all(
+                        guarded(model, cs.caller, enclosing_map(cs.caller.node), cs.node)
+                        for cs in csites):
+                    how = f'all {len(csites)} resolved call sites guarded'
+            res.instances.append(f'{f.key}: {stmt_text(n)[:50]} -> {how or "UNGUARDED"}')
+            if how:
+                res.ok()
+            else:
+                res.fail(finding('R03.8', f, n, f'{stmt_text(n)[:50]}',
+                                 f'`{stmt_text(n)[:60]}` parses a URL taken from the expression, '
+                                 f'the document or the context outside any handler for '
+                                 f'ValueError: a malformed authority such as "http://[x" '
+                                 f'escapes as a bare ValueError'))
+    counts['url_parse_sites'] = sites
+    if sites < 10:
+        raise AnalysisError(f'only {sites} URL parse sites located')
+    return res
+
+
+# --------------------------------------------------------------------------------------------
+# R03.9 numeric overflow in the math:* functions and the division family
+# --------------------------------------------------------------------------------------------
+OVERFLOW_CATCH = {'OverflowError', 'ArithmeticError', 'Exception', 'BaseException'}
+BIGINT_SAFE_MATH = {'log', 'log10', 'log2', 'copysign'}        # accept ints of any size
+
+
+def r03_9(ctx, counts) -> RuleResult:
+    model: Model = ctx.model
+    res = RuleResult(
+        'R03.9', 'OVERFLOW-GUARD',
+        'In the evaluate methods of the math:* functions and of div/idiv/mod, every operation '
+        'on an evaluated operand that converts to a C double or can exceed its range — '
+        'math.f(x) other than log/log10 (which take big ints), float(x), x ** y, and /, //, % — '
+        'is inside a try with a handler for OverflowError (or ArithmeticError), or its operand '
+        'is bounded on both sides by dominating comparisons with constants. xs:integer is '
+        'unbounded here, so `math.sin(10**400)` or `1 mod 10**400` otherwise escape as a bare '
+        'OverflowError.')
+    reg = ctx.reg
+    funcs: dict[FuncInfo, str] = {}
+    for rec in reg.all_records():
+        ns = rec.get(model, 'namespace')
+        fam = None
+        if isinstance(ns, str) and ns.endswith('/xpath-functions/math'):
+            fam = f'math:{rec.symbol}'
+        elif rec.symbol in ('div', 'idiv', 'mod'):
+            fam = rec.symbol
+        if fam:
+            ref = rec.method('evaluate')
+            if ref is not None and ref.func is not None and ref.origin != 'class':
+                funcs.setdefault(ref.func, fam)
+    if len(funcs) < 12:
+        raise AnalysisError(f'math/division family functions located: {len(funcs)} < 12')
+    n_ops = 0
+    for f, fam in sorted(funcs.items(), key=lambda kv: kv[0].key):
+        cfg = CFG(f.node, calls_may_raise)
+        facts = branch_facts(cfg)
+        emap = enclosing_map(f.node)
+        operands: set[str] = set()
+        for n in walk_local(f.node):
+            if isinstance(n, (ast.Assign, ast.AnnAssign)) and isinstance(n.value, ast.Call) and \
+                    dotted(n.value.func).split('.')[-1] in EVAL_SOURCES:
+                tgts = n.targets if isinstance(n, ast.Assign) else [n.target]
+                for t in tgts:
+                    for x in (t.elts if isinstance(t, ast.Tuple) else [t]):
+                        if isinstance(x, ast.Name):
+                            operands.add(x.id)
+
+        def mentions(e: ast.AST) -> set[str]:
+            return {x.id for x in ast.walk(e) if isinstance(x, ast.Name)} & operands
+
+        ops: list[tuple[ast.AST, str, set[str]]] = []
+        for n in walk_local(f.node):
+            if isinstance(n, ast.Call):
+                d = dotted(n.func)
+                if d.startswith('math.') and d.split('.')[-1] not in BIGINT_SAFE_MATH:
+                    m = set().union(*[mentions(a) for a in n.args]) if n.args else set()
+                    if m:
+                        ops.append((n, d, m))
+                elif d == 'float' and n.args and mentions(n.args[0]) and \
+                        not isinstance(n.args[0], ast.Constant):
+                    ops.append((n, 'float()', mentions(n.args[0])))
+            elif isinstance(n, ast.BinOp) and isinstance(
+                    n.op, (ast.Pow, ast.Div, ast.FloorDiv, ast.Mod)) and mentions(n) and not (
+                    not isinstance(n.op, ast.Pow) and isinstance(n.right, ast.Constant)
+                    and isinstance(n.right.value, int)):
+                # (x % 2, x // 2 with an int constant never convert x to a double)
+                # a float()/math call wrapping it is reported once, on the inner operation
+                ops.append((n, type(n.op).__name__, mentions(n)))
+        seen_inner: set[int] = set()
+        for n, what, names in ops:
+            if isinstance(n, ast.Call) and n.args and any(
+                    o is not n and any(y is o for y in ast.walk(n.args[0])) for o, _, _ in ops):
+                continue        # wrapper of an inner operation which carries the obligation
+            n_ops += 1
+            caught = False
+            for enc in emap[id(n)]:
+                if isinstance(enc, ast.Try) and any(any(y is n for y in ast.walk(b))
+                                                    for b in enc.body):
+                    for h in enc.handlers:
+                        if {x.split('.')[-1] for x in handler_names(model, f.module, h)} \
+                                & OVERFLOW_CATCH:
+                            caught = True
+            bounded = False
+            if not caught:
+                holder = None
+                for nd in cfg.nodes:
+                    if nd.ast is not None and nd.kind in ('stmt', 'test') and any(
+                            x is n for x in ast.walk(
+                                nd.ast.test if isinstance(nd.ast, (ast.If, ast.While))
+                                else nd.ast)):
+                        holder = nd
+                        break
+                if holder is not None:
+                    bounded = True
+                    for nm in names:
+                        lo = hi = False
+                        for fact in facts[holder.id]:
+                            m = re.match(rf'^-{re.escape(nm)} (<|<=|>|>=) (-?[\d.]+)$', fact)
+                            if m:
+                                if m.group(1) in ('<', '<='):
+                                    lo = True
+                                else:
+                                    hi = True
+                        bounded = bounded and lo and hi
+            res.instances.append(f'{f.key} [{fam}]: `{stmt_text(n)[:40]}` '
+                                 f'overflow handler={caught} operand bounded={bounded}')
+            if caught or bounded:
+                res.ok()
+            else:
+                res.fail(finding('R03.9', f, n, f'{stmt_text(n)[:40]}',
+                                 f'`{stmt_text(n)[:50]}` in {fam} works on an evaluated operand '
+                                 f'outside any handler for OverflowError and without a two-sided '
+                                 f'bound: an xs:integer beyond the double range, or a result '
+                                 f'beyond it, escapes as a bare OverflowError'))
+    counts['overflow_ops'] = n_ops
+    if n_ops < 12:
+        raise AnalysisError(f'only {n_ops} overflow-prone operations located')
+    return res
+
+
 def run(ctx) -> dict:
     counts: dict[str, int] = {}
-    results = [r03_1(ctx, counts), r03_2(ctx, counts), r03_3(ctx, counts), r03_4(ctx, counts)]
+    results = [r03_1(ctx, counts), r03_2(ctx, counts), r03_3(ctx, counts), r03_4(ctx, counts),
+               r03_5(ctx, counts), r03_6(ctx, counts), r03_7(ctx, counts),
+               r03_8(ctx, counts), r03_9(ctx, counts)]
+    # "no call hangs": the lock discipline of C19 is a necessary condition (a lock left held on
+    # an error path blocks every later evaluation that needs it)
+    from . import c19_global
+    results += [c19_global.r19_1(ctx, counts), c19_global.r19_2(ctx, counts)]
     return {
         'results': results, 'counts': counts,
         'explanation':
@@ -634,11 +1514,21 @@ def run(ctx) -> dict:
             'exceptions named in the allow table); (3) no assert guards evaluation-derived data '
             'unless a dominating test implies it (class lattice + branch facts on the CFG); '
             '(4) Parser.parse resets every cursor slot in its finally and parse-phase code '
-            'restores any other parser attribute it changes.',
+            'restores any other parser attribute it changes; (5) the generated tokenizer is '
+            'total (catch-all group + \\s+ residue), its group arity matches advance() and the '
+            'whitespace skip test accepts the whole residue language; (6) for "no call hangs": '
+            'every lock acquired is released on every exit, error exits included, and no yield '
+            'or re-entrant evaluation happens while it is held (rules R19.1/R19.2); (7) every '
+            'collection sorted by node position holds nodes only; (8) the division family '
+            'covers ZeroDivisionError and decimal.InvalidOperation; (9) URL parsing of evaluated '
+            'strings is guarded against ValueError; (10) the math:* functions and div/idiv/mod '
+            'guard every double conversion against OverflowError.',
         'not_decided':
-            'Implicit exceptions from builtins (int(), subscripts, attribute access on '
-            'unexpected types), RecursionError on deep input and termination need value '
-            'reasoning and are not decided.',
+            'Implicit exceptions from builtins in general (subscripts, attribute access on '
+            'unexpected types, int/float conversions outside the families named above, e.g. '
+            'number(10^400), substring("abc", 10^400), count(1 to 10^400)), RecursionError on '
+            'deep input (thousands of nested comments, `empty-sequence() and lt`) and termination '
+            '(round(1.5, 10^400)) need value reasoning and are not decided.',
         'assumptions': ['phase map from the resolved call graph',
                         'the evaluation sources enumerated in EVAL_SOURCES'],
     }
